@@ -514,3 +514,11 @@ _RESTARTING = (" Added: campaign restarting (disk node stopped and reopened afte
                " that follows from the accepted transactions so far (VIOL C05 / C22 owner-gated-tx-accepted-from-non-owner).")
 for _p in ('C05', 'C22', 'C09'):
     PROPS[_p]['claim'] += _RESTARTING
+
+# ---------------------------------------------------------------------------------------------------------------
+# After the second seeded-change sweep: a node campaign registered for a property decides something for it. The model's own
+# answer for every delivered transaction and every BeginBlock / EndBlock (status code, changed keys) is part of the tie of every
+# property whose behaviour lives in those steps, so a disagreement in one of its campaigns breaks that property's correspondence
+# (reported with the trace; no-failing-input-found unless one of the property's monitors fires in the continued history).
+for _p in ('C13', 'C14', 'C17', 'C19', 'C20', 'C28'):
+    PROPS[_p]['mismatch_counts'] = True
